@@ -93,6 +93,14 @@ def handle : Handler
           hostTrusted := hostOk, cookie := cookie, pinRight := pinRight, atConsole := atConsole }
       some (toString (outcomeCode o) ++ "|" ++ toString f.toNat)
     | _, _, _, _, _, _, _, _, _, _, _, _ => some badArgs
+  | "dbg.pintrust", [pinTime, pinHash, cookie, now, tsval] =>
+    -- `tsval`: what Python's int() makes of the text before the first `|` (`!` = ValueError, `~` = not asked)
+    match intArg pinTime, optArg unhexStr pinHash, optArg unhexStr cookie, intArg now,
+        (if tsval == "!" || tsval == "~" then some none else (intArg tsval).map some) with
+    | some pinTime, some pinHash, some cookie, some now, some tsval =>
+      some (match checkPinTrustRaw (fun _ => tsval) pinTime pinHash cookie now with
+        | .yes => "True" | .no => "False" | .bad => "None")
+    | _, _, _, _, _ => some badArgs
   | cmd, args => Wz.Driver.PyPrelude.handle cmd args  -- `pre.*`: primitives of Util/PyPrelude
 
 end Wz.Driver.C20
